@@ -257,7 +257,9 @@ def run_callback_big(case, g, fns=("scc", "topo", "condense")):
     for fn in fns:
         try:
             with deep_recursion(g.n):
-                res = F[fn](nodes(), nb)
+                res = C.call_guarded(fn, F[fn], g.n, nodes(), nb)
+        except C._Skip:
+            continue
         except Exception as e:  # noqa: BLE001
             o, d = C.exc_obl(e, g)
             out.append((fn, o, d))
@@ -276,7 +278,9 @@ def run_edges_big(case, g, fns=("scc_edges", "topo_edges")):
     for fn in fns:
         try:
             with deep_recursion(g.n):
-                res = F[fn](case["n"], edges, backend="python")
+                res = base().call_guarded(fn, F[fn], case["n"], case["n"], edges, backend="python")
+        except base()._Skip:
+            continue
         except Exception as e:  # noqa: BLE001
             out.append((fn, "ensures:returns", f"raised {type(e).__name__}: {e}"))
             continue
@@ -755,10 +759,12 @@ def run_history(hs, upto=None):
                 calls += 1
                 try:
                     with deep_recursion(n):
-                        res = F[fn](s.nodes, s.nb)
+                        res = C.call_guarded(fn, F[fn], n, s.nodes, s.nb)
                     bad = chk[fn](res, g, idx)
                     if not rep:
                         answers[fn] = canon_answer(fn, res, idx, n)
+                except C._Skip:
+                    bad = []
                 except Exception as e:  # noqa: BLE001
                     bad = [C.exc_obl(e, g)]
                 for o, d in bad:
@@ -771,8 +777,10 @@ def run_history(hs, upto=None):
                     calls += 1
                     try:
                         with deep_recursion(n):
-                            res = FE[fn](n, elist, backend="python")
+                            res = C.call_guarded(fn, FE[fn], n, n, elist, backend="python")
                         bad = chk[fn](res, g, {i: i for i in range(n)})
+                    except C._Skip:
+                        bad = []
                     except Exception as e:  # noqa: BLE001
                         bad = [("ensures:returns", f"raised {type(e).__name__}: {e}")]
                     for o, d in bad:
@@ -793,7 +801,9 @@ def fresh_eval(item):
     for fn in ("scc", "topo", "condense"):
         try:
             with deep_recursion(n):
-                out[fn] = canon_answer(fn, F[fn](s.nodes, s.nb), idx, n)
+                out[fn] = canon_answer(fn, base().call_guarded(fn, F[fn], n, s.nodes, s.nb), idx, n)
+        except base()._Skip:
+            out[fn] = ["exception", "not called again: it ran out of its CPU budget before"]
         except Exception as e:  # noqa: BLE001
             out[fn] = ["exception", repr(e)]
     return out
